@@ -508,14 +508,16 @@ def gen_accept_stderr(rng, first=None):
 def outcomes(ctx, rng, factor):
     n_rej = ctx.pick(3, 40) * min(factor, 2)
     n_warn = ctx.pick(1, 8)
-    n_notice = ctx.pick(3, 10)
+    n_notice = ctx.pick(0, 8)
     outs = [{"tag": "exit0-silent", "kind": "exit", "code": 0, "stderr": ""}]
     for i in range(n_warn):
         outs.append({"tag": "exit0-stderr", "kind": "exit", "code": 0, "stderr": gen_stderr(rng, directed=False) if i else "Warning: /data/g/q1 is odd\n"})
-    for i in range(n_notice):
-        # the JVM's own "Picked up <VAR>: ..." line is what containers / CI produce on every start: always present once
-        first = rng.choice(JVM_NOTICES[:3]) if i == 0 else rng.choice(JVM_NOTICES[3:]) if i == 1 else None
-        outs.append({"tag": "exit0-jvm-notice+stderr", "kind": "exit", "code": 0, "stderr": gen_accept_stderr(rng, first)})
+    # every kind of start-up notice appears once as the first line of an accepted run's stderr (a filter keyed on the
+    # first line of stderr must not swallow the warnings behind it); further random combinations in the thorough tier
+    for i in range(len(JVM_NOTICES) + n_notice):
+        first = JVM_NOTICES[i] if i < len(JVM_NOTICES) else None
+        outs.append({"tag": "exit0-jvm-notice+stderr", "kind": "exit", "code": 0, "stderr": gen_accept_stderr(rng, first),
+                     "few_forms": i >= 1})
     # a rejection citing nodes whose names use every legal ASCII name character
     outs.append({"tag": "exit>0-named-paths", "kind": "exit", "code": 1,
                  "stderr": "Error evaluating field '" + gen_name(rng) + "': " + "/data/" + gen_name(rng) + "/" + gen_name(rng) + "-" + gen_name(rng)
@@ -584,6 +586,8 @@ def explore(ctx, factor, bs):
             for fid, f in FORMS.items():
                 if outcome["kind"] == "sleep" and fid not in ("plain", "itemsets", "late"):
                     continue  # each validating run costs SHORT_TIMEOUT
+                if outcome.get("few_forms") and fid not in ("plain", "warn"):
+                    continue
                 if f.get("fault") and outcome["tag"] not in ("exit0-silent", "exit>0-named-paths", "java-absent", "killed"):
                     continue  # the validator is never reached behind a failed write: a few environments suffice
                 for mode in modes(rng):
